@@ -13,6 +13,7 @@ where all threads meet at a barrier, i.e. every thread is inside `__repr__` of t
 """
 from __future__ import annotations
 
+import contextvars
 import copy
 import functools
 import itertools
@@ -45,9 +46,10 @@ RULE = ("T3 (both tiers): one `script` case per generated class -- the real sour
         "that are truthy / have len 0 / bool False / a raising __bool__; per-field options that must not influence the repr (kw_only, "
         "eq/order/hash, converter, validator, alias, default presence) and keyword-only layers; the class's module (a synthetic "
         "module in sys.modules while the classes are decorated) optionally binding id / getattr / AttributeError / _compat / NOTHING "
-        "to junk; tolerant callables that swallow whatever rendering "
+        "to junk; multiple inheritance `mi` (the last layer's fields in a side class -- a sibling of the chain or a second child of its last-but-one class (diamond) -- and the class itself a field-less attrs class combining both, base order chosen per front-end so the field order stays the layers' order); an own `__str__` in the body of the class given str=True, with attr.s(auto_detect=True) or the define family; tolerant callables that swallow whatever rendering "
         "their value raises (model: catch node), combined with faults below and later back-references) x fresh/warm thread x a fault "
-        "(before/after rendering) in one callable x thread scenario (0, 2, 3 threads meeting at a barrier inside a callable). "
+        "(before/after rendering) in one callable x thread scenario (0, 2, 3 threads meeting at a barrier inside a callable; the threads plain, "
+        "or started through contextvars.copy_context().run copies of the context of a spawning thread that has already rendered an unrelated attrs instance / the root itself). "
         "A structured block enumerates cycle shapes x field kinds x every callable fault position first. Non-trivial = "
         "the rendering contains a cycle marker, a fault, an unset field, a callable or a thread scenario; distinct = distinct JSON case")
 ASSUMPTIONS = [
@@ -55,9 +57,11 @@ ASSUMPTIONS = [
     "T3: the parser harness/c11_ir.py (ast -> IR, strict: unknown forms stay `unknown`) and the description each instrumented callable carries of itself (`spec`, read back through the generated function's __globals__) are trusted; `execScript` gives the IR its meaning in Lean",
     "a rendering that does not come back within 10 s is observed as `exc timeout` (non-termination) and its thread is cancelled",
     "class-level history (which classes of the chain rendered an instance earlier) and the `__name__` of the repr callables are harness-only variation: the model and the property are independent of both; the history is applied when a class is built (cache key contains it) so a replay in a fresh process sees the same history",
+    "how the threads are started (`ctx`: plain / inside copies of the spawner's context after the spawner rendered something) is harness-only variation: the model's threads each own a fresh already_repring whatever the spawner did",
     "threading.local gives every thread its own already_repring: runtime behaviour, observed through forced schedules, not proved",
     "CPython's own recursion guard for list/tuple/dict repr (Py_ReprEnter/Leave) and object.__str__ -> repr are modelled as small functions and diff-tested here",
     "the real thread schedule is forced only up to 'all N threads are inside repr(root), in a field's callable, at the same time' (barrier; a timeout is recorded, not alarmed); finer interleavings are covered by the theorem over all schedules of the model's atomic steps",
+    "the inheritance shape that delivers the fields (linear chain / combining class over a sibling or a diamond), an own __str__ next to str=True and auto_detect are harness-only variation: the model sees the flattened field list and the str flag only",
     "heap mutation during a rendering is out of scope (the heap is immutable while repr runs)",
     "instrumented callables return str; atoms are objects whose repr is a bare token",
 ]
@@ -376,19 +380,30 @@ def build_class(cs, occurrence=0):
     n = len(layers)
     str_at = min(cfg.get("strAt", n - 1), n - 1) if cs["str"] else None
     plain_sub = cfg.get("plainSub", False) or cs["ovr"]
+    # multiple inheritance (harness-only): the last layer's fields live in a side class `Side` (a sibling of the
+    # chain: "combine", or a second child of the chain's last-but-one class: "diamond") and the class itself is a
+    # field-less attrs class combining the chain and `Side`; the field order is still the layers' order
+    mi = cfg.get("mi", "none") if n >= 2 else "none"
+    own_str = "def __str__(self): return 'OWNSTR'"
 
     def deco_for(i):
         kw = {}
         if cfg.get("slots") is not None:
             kw["slots"] = cfg["slots"]
+        if mi != "none":
+            kw["slots"] = False            # two slotted bases with fields cannot be laid out
         if cfg.get("frozen") and api == "attr.s":
             kw["frozen"] = True
         if str_at == i:
             kw["str"] = True
-        if i == n - 1 and cs["reprNs"] is not None:
+        if i == (n - 1 if mi == "none" else "comb") and cs["reprNs"] is not None:
             kw["repr_ns"] = cs["reprNs"]
         if i in cfg.get("kwOnlyLayers", []):
             kw["kw_only"] = True
+        if cfg.get("autoDetect") and api == "attr.s":
+            kw["auto_detect"] = True       # define/mutable/frozen have it on by default
+        if i == "comb" and mi != "none":
+            kw["slots"] = False
         d = _DECOS[api]
 
         def deco(c):
@@ -419,10 +434,25 @@ def build_class(cs, occurrence=0):
 
     stmts, base = [], "_root"
     attrs_names = [f"Base{i}" for i in range(n - 1)] + ["Leaf" if plain_sub else cs["name"]]
+    if mi != "none":
+        attrs_names = [f"Base{i}" for i in range(n - 1)] + ["Side"]
     for i, layer in enumerate(layers):
         glob[f"_deco{i}"] = registering(deco_for(i))
         glob[f"_mk{i}"] = {f["name"]: (lambda f=f: _ib(f, cfg, cbs)) for f in layer}
-        stmts.append((f"_deco{i}", attrs_names[i], base, [f"{f['name']} = _mk{i}[{f['name']!r}]()" for f in layer]))
+        body = [f"{f['name']} = _mk{i}[{f['name']!r}]()" for f in layer]
+        if str_at == i and cfg.get("ownStr"):
+            body.append(own_str)           # an own __str__ in the body of the class that gets str=True: str=True wins
+        if mi != "none" and i == n - 1:
+            side_base = f"_reg['Base{n - 3}']" if (mi == "diamond" and n >= 3) else "_root"
+            stmts.append((f"_deco{i}", "Side", side_base, body))
+            # attr.s collects base fields in MRO order, define & co. in reversed MRO order
+            chain, side = f"_reg['Base{n - 2}']", "_reg['Side']"
+            glob["_deco_comb"] = registering(deco_for("comb"))
+            stmts.append(("_deco_comb", "Leaf" if plain_sub else cs["name"],
+                          f"{chain}, {side}" if api == "attr.s" else f"{side}, {chain}", []))
+            base = f"_reg[{('Leaf' if plain_sub else cs['name'])!r}]"
+            break
+        stmts.append((f"_deco{i}", attrs_names[i], base, body))
         base = f"_reg[{attrs_names[i]!r}]"
     if plain_sub:
         body = ["def __repr__(self):", "    return 'OVR<' + super().__repr__() + '>'"] if cs["ovr"] else []
@@ -433,6 +463,8 @@ def build_class(cs, occurrence=0):
             kw = {"repr": False}
             if cfg.get("slots") is not None:
                 kw["slots"] = cfg["slots"]
+            if mi != "none":
+                kw["slots"] = False
             glob["_deco_sub"] = lambda c: _DECOS[api](**kw)(c)
             glob["_mk_sub"] = lambda: attr.ib(default=0)
             deco, body = "_deco_sub", ["zz_extra = _mk_sub()"] + body
@@ -603,7 +635,7 @@ def _sequential(root, idmap, warm):
     return res
 
 
-def _concurrent(root, idmap, warm, n):
+def _concurrent(root, idmap, warm, n, ctx="plain"):
     start = threading.Barrier(n)
     mid = threading.Barrier(n)
     outs = [None] * n
@@ -633,7 +665,31 @@ def _concurrent(root, idmap, warm, n):
         except HarnessCancel:
             pass
 
-    ts = [threading.Thread(target=worker, args=(i,), daemon=True) for i in range(n)]
+    if ctx == "plain":
+        ts = [threading.Thread(target=worker, args=(i,), daemon=True) for i in range(n)]
+    else:
+        # the workers run inside copies of the spawning thread's context (what asyncio.to_thread / run_in_executor
+        # wrappers do), taken after the spawner has itself rendered attrs instances ("copied": an unrelated one;
+        # "copied_root": also the root); the spawner is a thread of its own, so the history is the same in a replay
+        box = {}
+
+        def spawner():
+            TL.gen = GEN[0]
+            TL.mid = None
+            try:
+                repr(_WARM)
+                if ctx == "copied_root":
+                    _attempt(lambda: repr(root))
+            except HarnessCancel:
+                pass
+            box["ts"] = [threading.Thread(target=contextvars.copy_context().run, args=(worker, i), daemon=True) for i in range(n)]
+        sp = threading.Thread(target=spawner, daemon=True)
+        sp.start()
+        sp.join(JOIN_TIMEOUT)
+        if "ts" not in box:
+            _cancel_threads([sp])
+            return [{"out": TIMEOUT_OUT, "residue": []} for _ in range(n)], "timeout"
+        ts = box["ts"]
     sys.setswitchinterval(1e-5)      # restored by observe()
     for t in ts:
         t.start()
@@ -701,7 +757,7 @@ def observe(case):
         obs = _sequential(root, idmap, case["warm"])
         n = case["threads"]
         if n > 0:
-            obs["threads"], obs["sync"] = _concurrent(root, idmap, case["warm"], n)
+            obs["threads"], obs["sync"] = _concurrent(root, idmap, case["warm"], n, case.get("ctx", "plain"))
         else:
             obs["threads"], obs["sync"] = [], "none"
         return obs
@@ -730,7 +786,7 @@ SCOPES = [
 CLS_NAMES = ["C", "D", "Node", "Pt"]
 BASE_CFG = {"api": "attr.s", "slots": None, "frozen": False, "plainSub": False, "strAt": 9, "dflt": [], "explicit_true": False,
             "pre": "none", "cbNames": "field", "basePlace": "same", "subKind": "plain", "cbObj": "func",
-            "fopts": {}, "kwOnlyLayers": [], "modGlobals": []}
+            "fopts": {}, "kwOnlyLayers": [], "modGlobals": [], "mi": "none", "ownStr": False, "autoDetect": False}
 
 
 def rand_cfg(rng, names):
@@ -750,6 +806,9 @@ def rand_cfg(rng, names):
         "fopts": rand_fopts(rng, names),
         "kwOnlyLayers": [i for i in range(3) if rng.random() < 0.15],
         "modGlobals": [nm for nm in sorted(_MOD_JUNK) if rng.random() < 0.2],
+        "mi": rng.choice(["none", "none", "combine", "diamond"]),
+        "ownStr": rng.random() < 0.4,
+        "autoDetect": rng.random() < 0.4,
     }
 
 
@@ -855,8 +914,9 @@ def with_fault(heap, slot, fault):
     return h
 
 
-def mk_case(heap, root=0, warm=False, threads=0, sched=(), abort=False):
-    return {"heap": heap, "root": root, "warm": warm, "threads": threads, "sched": list(sched), "abort": abort}
+def mk_case(heap, root=0, warm=False, threads=0, sched=(), abort=False, ctx="plain"):
+    return {"heap": heap, "root": root, "warm": warm, "threads": threads, "sched": list(sched), "abort": abort,
+            "ctx": ctx if threads else "plain"}
 
 
 def _simple_class(fields, **kw):
@@ -898,7 +958,8 @@ def structured(rng):
                     yield mk_case(with_fault(heap, slot, fault), 0, warm, abort=rng.random() < 0.4)
             if name in ("self", "list", "other", "deep") and isinstance(r, dict):
                 for n in (2, 3):
-                    yield mk_case(heap, 0, warm, n, [rng.randrange(6) for _ in range(rng.randrange(10))])
+                    for cx in ("plain", "copied", "copied_root"):
+                        yield mk_case(heap, 0, warm, n, [rng.randrange(6) for _ in range(rng.randrange(10))], ctx=cx)
     # class names: every nesting shape x plain subclass x repr_ns x str flags
     for sc, plain_sub, ns, st, pst in itertools.product(SCOPES[2:], (False, True, "ovr"), (None, "ns"), (False, True), (False, True)):
         for nl in (1, 2):
@@ -957,6 +1018,18 @@ def structured(rng):
         cs["layers"] = [fs] if nl == 1 else [fs[:1], fs[1:]]
         cs["cfg"].update(cbObj=obj, api=api, slots=slots)
         yield mk_case({"classes": [cs], "nodes": [{"inst": {"cls": 0, "vals": [["a", 1], ["b", 1], ["c", 1]]}}, {"atom": {"s": "7"}}]}, 0, False)
+    # multiple inheritance: a field-less attrs class combining the chain with a side class (sibling / diamond), and
+    # an own __str__ in the body of the class that is given str=True (with and without auto_detect)
+    for mi, api, nl, sub, st, own, ad in itertools.product(("combine", "diamond", "none"), ("attr.s", "define", "frozen"), (2, 3),
+                                                           (False, True), (False, True), (False, True), (False, True)):
+        if (own and not st) or (ad and not own):
+            continue
+        fs = [{"name": "a", "repr": "on", "init": True}, {"name": "b", "repr": call("Rb", rc=False), "init": True},
+              {"name": "c", "repr": "on", "init": True}]
+        cs = _simple_class([], name="Both", str=st, plainStr=rng.random() < 0.5)
+        cs["layers"] = [fs[:2], fs[2:]] if nl == 2 else [fs[:1], fs[1:2], fs[2:]]
+        cs["cfg"].update(mi=mi, api=api, plainSub=sub, ownStr=own, autoDetect=ad, strAt=rng.choice([0, 1, 9]))
+        yield mk_case({"classes": [cs], "nodes": [{"inst": {"cls": 0, "vals": [["a", 1], ["b", 1], ["c", 0]]}}, {"atom": {"s": "7"}}]}, 0, False)
     # callables that share a __name__: own + own, inherited + own, three of them
     for mode, nl, slots in itertools.product(("same", "wraps", "field"), (1, 2, 3), (None, True)):
         fs = [{"name": n, "repr": {"call": {"tag": "R" + n, "recurse": rc, "fault": "no", "tol": False}}, "init": True}
@@ -996,7 +1069,8 @@ def gen_cases(tier, rng):
                 if len(slots_) > 1 and rng.random() < 0.2:
                     heap = with_fault(heap, rng.choice(slots_), rng.choice(["pre", "post"]))
             sched = [rng.randrange(6) for _ in range(rng.randrange(14))] if threads else []
-            yield mk_case(heap, root, warm, threads, sched, abort=rng.random() < 0.35)
+            yield mk_case(heap, root, warm, threads, sched, abort=rng.random() < 0.35,
+                          ctx=rng.choice(["plain", "plain", "copied", "copied_root"]))
 
 
 # ------------------------------------------------------------------------------------------ reporting helpers
@@ -1056,6 +1130,7 @@ def dist(case, obs):
         "fault": "+".join(sorted(f for f in faults if f != "no")) or "none",
         "callables": len(faults),
         "threads": case["threads"],
+        "ctx": case.get("ctx", "plain"),
         "sync": obs.get("sync") if isinstance(obs, dict) else "?",
         "warm": case["warm"],
         "abort": bool(case.get("abort")),
@@ -1075,6 +1150,8 @@ def dist(case, obs):
         "locals": any(s["fn"] for c in heap["classes"] for s in c["scopes"]),
         "repr_ns": any(c["reprNs"] is not None for c in heap["classes"]),
         "str": any(c["str"] for c in heap["classes"]),
+        "mi": cfgs[0].get("mi", "none") if cfgs and len(heap["classes"][0]["layers"]) >= 2 else "none",
+        "ownStr": any(c["str"] and c.get("cfg", {}).get("ownStr") for c in heap["classes"]),
         "root_str": "+".join(k for k in ("str", "plainStr", "ovr") if _root_cls(case).get(k)) or "-",
     }
 
@@ -1099,8 +1176,12 @@ def shrink(case):
                 yield make_script_case(cs)
         return
     heap = case["heap"]
+    if case.get("ctx", "plain") != "plain":
+        yield dict(case, ctx="plain")
+        if case["ctx"] != "copied":
+            yield dict(case, ctx="copied")
     if case["threads"]:
-        yield dict(case, threads=0, sched=[])
+        yield dict(case, threads=0, sched=[], ctx="plain")
         if case["threads"] > 2:
             yield dict(case, threads=2)
     if case["sched"]:
@@ -1187,7 +1268,12 @@ def neighbours(case, rng):
     yield dict(case, abort=not case.get("abort", False))
     for n in (0, 2, 3):
         if n != case["threads"]:
-            yield dict(case, threads=n, sched=[rng.randrange(6) for _ in range(8)] if n else [])
+            yield dict(case, threads=n, sched=[rng.randrange(6) for _ in range(8)] if n else [],
+                       ctx=rng.choice(["plain", "copied", "copied_root"]) if n else "plain")
+    if case["threads"]:
+        for cx in ("plain", "copied", "copied_root"):
+            if cx != case.get("ctx", "plain"):
+                yield dict(case, ctx=cx)
     for slot in callable_slots(heap):
         for fault in ("no", "pre", "post"):
             yield dict(case, heap=with_fault(heap, slot, fault))
